@@ -16,3 +16,6 @@ BOUNDS = {
 OUTSIDE = 'real TCP/epoll behaviour (the kernel is a model written from the man pages: socketpair, send, recv, epoll_ctl/epoll_wait, eventfd), more than one client, writes longer than 2 bytes'
 ASSUMPTIONS = ['real src/Socket/Server.cpp and src/Socket/Socket.cpp (included by the harness TU), Buffer, PoolList, HashSet, HashMap, MultiMap; kernel calls are engine models',
                'no native replay: the counterexample is the recorded sequence of choices and send() outcomes, re-executed deterministically by the engine']
+
+TECHNIQUE = 'exhaustive bounded enumeration of write / send-outcome / suspend / peer-read histories of the real Server.cpp + Socket.cpp IR on an engine model of sockets and epoll by the symbolic executor; the choices are discrete, so no solver query is discharged (enumeration, not symbolic reasoning)'
+LEVEL_TEXT = 'Bounded model checking by exhaustive enumeration of every operation and send() outcome history within the bound on the real Server.cpp/Socket.cpp IR over a kernel model (socketpair/send/recv/epoll); values are concrete, the solver is not consulted; counterexamples are choice sequences re-executed by the engine.'
